@@ -9,5 +9,12 @@ def run(tier="quick", seed=0):
     b = Budget(12 if tier == "quick" else 240)
     r = run_histories(seed + 4, b, n_hist=40 if tier == "quick" else 2000, length=14 if tier == "quick" else 40, weights={"init": 3, "doc": 1, "file": 1, "rekey": 6, "move": 2, "clone": 2, "handle": 3})
     r.update(scope="random histories (length 14 quick / 40 thorough) of {init, doc edit/reset, file, remove, clear/reset, re-key by 6 routes, move, clone, handle copy/deepcopy/pickle/reopen/drop, "
-                   "update_cache/restart/delete cache} over 2 projects, 4 keys x 8 values; model equality, check(), listing==len==membership, no temp files, live handles follow -- after every step", rule=RULE)
+                   "update_cache/restart/delete cache} over 2 projects, 4 keys x 8 values; model equality, check(), listing==len==membership, no temp files, live handles follow -- after every step; "
+                   "plus: state point changes after a document write inside one signac.buffered() block (3 routes)", rule=RULE)
+    from .c05 import rekey_in_buffer_check
+    from .common import script_header
+    for sig, msg in rekey_in_buffer_check():
+        r["failures"].append({"key": "doc:rekey-inside-buffer:" + sig, "description": msg,
+                              "script": script_header() + "sys.path.insert(0, '/verif')\nfrom pybound.c05 import rekey_in_buffer_check\nr = rekey_in_buffer_check()\nassert not r, r\n"})
+    r["evaluations"] = r.get("evaluations", 0) + 3
     return r
